@@ -490,7 +490,7 @@ class Program:
             raise AnalysisError(f'anchor class {qual} not found')
         return m.classes[name]
 
-    def func(self, qual: str, raw: bool = False) -> FuncInfo:
+    def func(self, qual: str, raw: bool = False, _alt: bool = False) -> FuncInfo:
         """'processes.Process.kill', 'futures.create_task.run_task', 'processes.Process._create_interrupt_action.do_kill'"""
         for short in sorted(self.modules, key=len, reverse=True):
             if qual.startswith(short + '.'):
@@ -516,6 +516,21 @@ class Program:
                 if cur is not None:
                     return self.view(cur) if not raw else cur
                 break
+        # a PRIVATE helper that takes no self is the same thing as a static method of a class and as a function of the module next to
+        # it (``Savable._set_meta_type(...)`` <-> ``_set_meta_type(...)``): look for the other spelling before giving up
+        if not _alt:
+            for short in sorted(self.modules, key=len, reverse=True):
+                if qual.startswith(short + '.'):
+                    rest = qual[len(short) + 1:].split('.')
+                    m = self.modules[short]
+                    if len(rest) == 2 and rest[0] in m.classes and rest[1].startswith('_') and not rest[1].startswith('__') and rest[1] in m.functions:
+                        return self.func(f'{short}.{rest[1]}', raw, _alt=True)
+                    if len(rest) == 1 and rest[0].startswith('_') and not rest[0].startswith('__'):
+                        for c in m.classes.values():
+                            g = c.methods.get(rest[0])
+                            if g is not None and g.has_decorator('staticmethod'):
+                                return self.func(f'{short}.{c.name}.{rest[0]}', raw, _alt=True)
+                    break
         raise AnalysisError(f'anchor function {qual} not found')
 
     inliner = None  # set by report.Ctx once call resolution is available
